@@ -12,9 +12,11 @@
 import GunYu.Model.Sender
 import GunYu.Model.Target
 import GunYu.Proofs.SenderCp
+import GunYu.Proofs.MaxOffset
+import GunYu.Proofs.Parser
 
 namespace GunYu.Props.C07
-open GunYu GunYu.Sender
+open GunYu GunYu.Sender GunYu.Target
 
 /-- offsets carried by the item events of a schedule -/
 def itemOffsets : List Ev → List Int
@@ -145,6 +147,81 @@ theorem restart_monotone (c : SCfg) (x : Int) (evs : List Ev)
   intro o ho
   exact hge o (cp_boundary_fresh c evs o ho)
 
+/-! ### Across any number of crashes and restarts (target side included)
+
+`maxOffset t.cps` is what `GetCheckpoint` returns: the largest `<rid>_offset`
+over all databases. `nextT` is one life of the tool: a new connection, the real
+loop over ANY schedule, the target executing ANY prefix of what was sent (an
+open MULTI is discarded), then the process dies. -/
+
+def nextT (c : SCfg) (t : TState) (evs : List Ev) (k : Nat) : TState :=
+  crash (applyLog (crash t) ((run c initS evs).2.flatten.take k))
+
+/-- **One life never lowers the stored position**: if the run only receives items
+    at or beyond the largest offset stored on the target when it starts (the
+    parser starts there: `resumed_items_not_below_start`), then after ANY crash
+    point the largest stored offset is at least what it was -- whichever
+    databases the writes land in. -/
+theorem restart_never_lowers_position (c : SCfg) (t : TState) (evs : List Ev) (k : Nat)
+    (hn : KeysNodup t.cps) (hge : ∀ o ∈ itemOffsets evs, maxOffset t.cps ≤ o) :
+    KeysNodup (nextT c t evs k).cps ∧ maxOffset t.cps ≤ maxOffset (nextT c t evs k).cps := by
+  unfold nextT
+  have h := applyLog_keeps ((run c initS evs).2.flatten.take k) (crash t) (maxOffset t.cps)
+    (by simpa [crash] using hn) (by simp [crash])
+    (by intro q hq; simp [crash] at hq)
+    (by
+      intro o ho
+      have h1 := cpReqs_take_sub _ k o ho
+      rw [cpReqs_flatten] at h1
+      exact restart_monotone c _ evs hge o h1)
+  simpa [crash] using h
+
+/-- a sequence of lives, each resuming from what the previous one left -/
+def RunsOK : TState → List (SCfg × List Ev × Nat) → Prop
+  | _, [] => True
+  | t, (c, evs, k) :: rest =>
+    (∀ o ∈ itemOffsets evs, maxOffset t.cps ≤ o) ∧ RunsOK (nextT c t evs k) rest
+
+def finalT : TState → List (SCfg × List Ev × Nat) → TState
+  | t, [] => t
+  | t, (c, evs, k) :: rest => finalT (nextT c t evs k) rest
+
+/-- **Over any number of restarts the stored position never decreases**: any
+    configurations, any schedules, any crash points, as long as every life
+    starts its stream at the position it read. -/
+theorem restarts_monotone (t : TState) (lives : List (SCfg × List Ev × Nat))
+    (hn : KeysNodup t.cps) (hok : RunsOK t lives) :
+    maxOffset t.cps ≤ maxOffset (finalT t lives).cps := by
+  induction lives generalizing t with
+  | nil => exact Int.le_refl _
+  | cons l rest ih =>
+    obtain ⟨c, evs, k⟩ := l
+    obtain ⟨h1, h2⟩ := hok
+    have hs := restart_never_lowers_position c t evs k hn h1
+    exact Int.le_trans hs.2 (ih _ hs.1 h2)
+
+/-- the hypothesis of the two theorems above is what the real parser delivers: a
+    run that resumes at `x` (fresh parser, optional initial `select` carrying `x`,
+    stream of commands ending beyond `x`) only hands over offsets `≥ x` -/
+theorem resumed_items_not_below_start (pc : PCfg) (x : Int) (raws : List Raw) (evs : List Ev)
+    (hitems : itemsOf evs = parserItems pc x raws)
+    (hraw : (raws.map (·.off)).Pairwise (· < ·)) (hlo : ∀ r ∈ raws, x ≤ r.off) :
+    ∀ o ∈ itemOffsets evs, x ≤ o := by
+  have hio : ∀ evs : List Ev, itemOffsets evs = (itemsOf evs).map (·.offset) := by
+    intro evs
+    induction evs with
+    | nil => rfl
+    | cons ev rest ih => cases ev <;> simp [itemOffsets, itemsOf, ih]
+  intro o ho
+  rw [hio, hitems] at ho
+  obtain ⟨i, hi, rfl⟩ := List.mem_map.mp ho
+  unfold parserItems at hi
+  rcases List.mem_append.mp hi with h | h
+  · split at h
+    · simp at h; subst h; simp [selectItem]
+    · cases h
+  · exact (parseAll_offsets_mono pc raws { lastSent := x } hraw hlo).2 i h
+
 /-- An idle source (ticks only, in any number and order) stores nothing new
     beyond the position already held, and nothing at all when the run has not
     consumed anything yet — a keep-alive never replaces a good position. -/
@@ -172,5 +249,18 @@ def exEvs : List Ev :=
 example : Mono initS.lastOffset exEvs := by simp [exEvs, Mono, initS]
 example : cpOffsets (run exCfg initS exEvs).2 = [1050, 1050, 1106] := by decide
 example : itemOffsets exEvs = [1023, 1050, 1065, 1092, 1106] := by decide
+-- two lives: the first dies after 7 requests (inside the second block), the second resumes at 1050
+def exT0 : TState := {}
+example : maxOffset (nextT exCfg exT0 exEvs 7).cps = 1050 := by decide +kernel
+example : RunsOK exT0 [(exCfg, exEvs, 7),
+    (exCfg, [.item { cmd := [115,101,116], args := [[99],[100]], offset := 1092, db := 1 }, .batchTick], 9)] := by
+  refine ⟨?_, ?_, trivial⟩
+  · intro o ho
+    have hm : maxOffset exT0.cps = -1 := by decide
+    have hio : itemOffsets exEvs = [1023, 1050, 1065, 1092, 1106] := by decide
+    rw [hm]; rw [hio] at ho; simp at ho; omega
+  · intro o ho
+    have hm : maxOffset (nextT exCfg exT0 exEvs 7).cps = 1050 := by decide +kernel
+    rw [hm]; simp [itemOffsets] at ho; omega
 
 end GunYu.Props.C07
